@@ -34,7 +34,7 @@
 (* and the property is theorem Commute: for every detector pair with TOF   *)
 (* index, SSRBMap(BinOf_in(pair)) = BinOf_out(pair) when covered.          *)
 (***************************************************************************)
-EXTENDS Geometry
+EXTENDS Geometry, FiniteSetsExt
 
 (* ------------------------------ parameters ------------------------------ *)
 NumTang(c) == c.maxTang - c.minTang + 1
@@ -190,6 +190,66 @@ NothingTrimmed(c, p) ==
   /\ p.trim <= 0
   /\ OutMaxSeg(c, p) * p.segComb + (p.segComb \div 2) = c.maxSeg
   /\ (IsTof(c) => NumTof(SSRBGeom(c, p)) * p.tofComb = NumTof(c))
+
+
+(***************************************************************************)
+(* BEYOND THE PROPERTY'S SENTENCES: the other index maps of rebinning /     *)
+(* resampling over Geometry.tla (DESIGN.md section 8).                      *)
+(***************************************************************************)
+(* ------------------------------ inverse_SSRB ---------------------------- *)
+\* "inverse_SSRB will produce oblique sinograms by finding the sinogram that has the same 'm'-coordinate ...
+\* if the output sinogram would lie 'half-way' 2 input sinograms, it will be set to the average of the 2 input
+\* sinograms.  Note that any oblique segments in proj_data_3D are currently ignored."
+\* c4: geometry of the output, c3: of the input (segment 0 used).  Weight, in HALVES, of input sinogram a of
+\* segment 0 in output sinogram (s, ax):
+InvW2(c4, c3, s, ax, a) ==
+  LET d == Abs(MQ(c4, s, ax) - MQ(c3, 0, a)) IN
+  IF d = 0 THEN 2 ELSE IF 2 * d = StepQ(c3, 0) THEN 1 ELSE 0
+\* "Input and output projection data should have the same number of views and tangential positions" (and TOF bins)
+InvCompatible(c4, c3) ==
+  /\ c4.N = c3.N /\ c4.R = c3.R /\ c4.mash = c3.mash /\ c4.minTang = c3.minTang /\ c4.maxTang = c3.maxTang
+  /\ c4.tofMash = c3.tofMash /\ c4.maxT = c3.maxT
+\* every output sinogram has the same m as an input sinogram or lies half-way two of them
+InvUnity(c4, c3) == \A s \in Segs(c4) : \A ax \in 0..(NumAx(c4, s) - 1) :
+   FoldSet(LAMBDA a, acc : acc + InvW2(c4, c3, s, ax, a), 0, 0..(NumAx(c3, 0) - 1)) = 2
+\* the parameter set that rebins everything into segment 0
+AllIntoOne(c) == [segComb |-> 2 * c.maxSeg + 1, viewComb |-> 1, trim |-> 0, maxSegArg |-> -1, tofComb |-> 1]
+\* InvAdjoint: on the geometry SSRB itself constructs, inverse_SSRB is the transpose of SSRB: output sinogram (s, ax)
+\* takes (with weight 1) exactly the input sinogram into which SSRB adds it, i.e. <SSRB x, y> = <x, inverse_SSRB y>
+InvAdjoint(c) ==
+  LET pp == AllIntoOne(c)  o == SSRBGeom(c, pp) IN
+  \A s \in Segs(c) : \A ax \in 0..(NumAx(c, s) - 1) : \A a \in 0..(NumAx(o, 0) - 1) :
+     InvW2(c, o, s, ax, a) = (IF OutAxOf(c, o, s, ax, 0) = a THEN 2 ELSE 0)
+
+(* --------------------- extend_segment (direct data) --------------------- *)
+\* "Axially and tangentially, the segment is filled with the nearest existing value.  In view direction, the
+\* function wraps around for ProjData that cover 180 or 360 degrees"; "if views cover 180 degrees, the tangential
+\* positions need to be flipped"; "If the sinogram is not symmetric in tangential position, the values are
+\* extrapolated by nearest neighbour known values."
+\* d = [minAx, maxAx, nv (views 0..nv-1), minT, maxT]; source index of element (a, v, t) of the extended array
+Clamp(x, lo, hi) == IF x < lo THEN lo ELSE IF x > hi THEN hi ELSE x
+\* (tangentially the nearest existing position of that - possibly wrapped - row; a wrapped row holds the mirror
+\* image of its source row, nearest known value where the mirror position is outside the data)
+ExtWraps(d, v) == IF v < 0 THEN -((-v + d.nv - 1) \div d.nv) ELSE v \div d.nv     \* number of half turns
+ExtSource(d, a, v, t) ==
+  LET wraps == ExtWraps(d, v)
+      vv == v - wraps * d.nv
+      t0 == Clamp(t, d.minT, d.maxT)
+      tt == IF wraps % 2 = 0 THEN t0 ELSE Clamp(-t0, d.minT, d.maxT)             \* LOR (phi + pi, s) = (phi, -s)
+  IN << Clamp(a, d.minAx, d.maxAx), vv, tt >>
+\* the mirror image of the (nearest existing) tangential position exists
+ExtHasMirror(d, t) == LET t0 == Clamp(t, d.minT, d.maxT) IN -t0 >= d.minT /\ -t0 <= d.maxT
+
+(* ------------- ScatterSimulation::downsample_scanner (integer maps) ------ *)
+\* "downsampled scanner number of rings / of detectors per ring": span 1, all ring differences of the new scanner
+\* (none if the template has a single segment), views = detectors / 2, number of tangential positions
+\* ceil(num_tangential_poss * new_detectors / old_detectors) + 1 (as set_num_tangential_poss centres them)
+CeilDiv(a, b) == (a + b - 1) \div b
+DownsampleGeom(c, newR, newN) ==
+  LET nt == CeilDiv(NumTang(c) * newN, c.N) + 1
+      md == IF c.maxSeg = c.minSeg THEN 0 ELSE newR - 1 IN
+  [N |-> newN, R |-> newR, span |-> 1, ge |-> FALSE, maxDelta |-> md, mash |-> 1, tofMash |-> 0, maxT |-> 0,
+   minTang |-> -(nt \div 2), maxTang |-> -(nt \div 2) + nt - 1, minSeg |-> -md, maxSeg |-> md]
 
 \* bins of a geometry whose tangential range may exceed the detector-pair range
 AllBinsWide(o) == { b \in [seg : Segs(o), ax : 0..(2 * o.R), view : Views(o), tang : o.minTang..o.maxTang, tof : TofBins(o)] :
